@@ -56,7 +56,13 @@ fn t_from(v: &Value) -> Option<T> {
 
 impl Case {
   fn to_json(&self) -> Value {
-    json!({"root": t_json(&self.root), "ignore": self.ignore, "hidden": self.hidden, "junk": self.junk, "follow": self.follow, "globs": self.globs, "specs": self.specs, "shuffle_seed": self.shuffle_seed, "specials": self.specials})
+    json!({"root": t_json(&self.root), "ignore": self.ignore, "hidden": self.hidden, "junk": self.junk, "follow": self.follow, "globs": self.globs, "specs": self.specs, "shuffle_seed": self.shuffle_seed, "specials": self.specials,
+           "other_options": self.noise()})
+  }
+  /// other options of create riding along (a function of the case's seed, so that a replay repeats them);
+  /// they add metadata only and must not change which files are listed or in which order
+  fn noise(&self) -> Vec<String> {
+    super::create_noise(&mut Rng(self.shuffle_seed ^ 0x6e6f697365), &["--sort-by"])
   }
   fn from_json(v: &Value) -> Option<Case> {
     let strs = |k: &str| -> Vec<String> { v.get(k).and_then(|a| a.as_array()).map(|a| a.iter().filter_map(|x| x.as_str().map(|s| s.to_string())).collect()).unwrap_or_default() };
@@ -340,6 +346,7 @@ fn observe(ctx: &Ctx, c: &Case) -> Obs {
     args.push("--sort-by".into());
     args.push(s.clone());
   }
+  args.extend(c.noise());
   let out = Cmd::args_owned(&ctx.imdl, args).cwd(&sb.root).run();
   let listed = std::fs::read(sb.path("o.torrent")).ok().and_then(|t| bencode::decode(&t).ok()).and_then(|v| {
     let info = v.get("info")?.clone();
